@@ -731,6 +731,12 @@ func derivesFromField(v ssa.Value, field string, d int) bool {
 		return derivesFromField(x.X, field, d+1)
 	case *ssa.Convert:
 		return derivesFromField(x.X, field, d+1)
+	case *ssa.MakeInterface:
+		return derivesFromField(x.X, field, d+1)
+	case *ssa.ChangeInterface:
+		return derivesFromField(x.X, field, d+1)
+	case *ssa.BinOp:
+		return derivesFromField(x.X, field, d+1) || derivesFromField(x.Y, field, d+1)
 	case *ssa.Call:
 		for _, a := range x.Call.Args {
 			if derivesFromField(a, field, d+1) {
